@@ -442,7 +442,9 @@ class Rewriter:
         `RECV.is_none_or(|v| E)` -> `(match RECV { None => true, Some(v) => E })`  (the std definitions)"""
         while True:
             m = rl.mask(text)
-            mt = re.search(r"\.\s*(is_some_and|is_none_or)\s*\(\s*\|\s*(\w+)\s*\|", m)
+            mt = re.search(r"\.\s*(is_some_and|is_none_or)\s*\(\s*\|\s*(\w+)\s*\|", m) or \
+                re.search(r"(?<=\.as_ref\(\))\s*\.\s*(map)\s*\(\s*\|\s*(\w+)\s*\|", m) or \
+                re.search(r"(?<=\.as_mut\(\))\s*\.\s*(map)\s*\(\s*\|\s*(\w+)\s*\|", m)
             if not mt:
                 return text
             op = m.index("(", mt.start())
@@ -482,7 +484,9 @@ class Rewriter:
                     break
             recv = text[i:mt.start()].strip()
             v = mt.group(2)
-            if mt.group(1) == "is_some_and":
+            if mt.group(1) == "map":
+                new = "(match %s { Some(%s) => Some(%s), None => None })" % (recv, v, body)
+            elif mt.group(1) == "is_some_and":
                 new = "(match %s { Some(%s) => %s, None => false })" % (recv, v, body)
             else:
                 new = "(match %s { None => true, Some(%s) => %s })" % (recv, v, body)
